@@ -47,14 +47,22 @@ impl WalPathManager {
         self.ensure_root()?;
         let file_name = now_millis_str();
         let path = self.root.join(&file_name);
+        #[cfg(walrus_verif)]
+        crate::wal::verif::io_gate("file_create", &path.to_string_lossy(), "")?;
         let f = std::fs::File::create(&path)?;
+        #[cfg(walrus_verif)]
+        crate::wal::verif::io_gate("file_set_len", &path.to_string_lossy(), "")?;
         f.set_len(MAX_FILE_SIZE)?;
 
         // Sync file metadata (size, etc.) to disk
+        #[cfg(walrus_verif)]
+        crate::wal::verif::io_gate("file_fsync", &path.to_string_lossy(), "")?;
         f.sync_all()?;
 
         // CRITICAL for Linux: Sync parent directory to ensure directory entry is durable
         // Without this, the file might exist but not be visible in directory listing after crash
+        #[cfg(walrus_verif)]
+        crate::wal::verif::io_gate("dir_fsync", &self.root.to_string_lossy(), "")?;
         let dir = std::fs::File::open(&self.root)?;
         dir.sync_all()?;
 
